@@ -104,9 +104,21 @@ def same_id_races(c, runner):
         shutil.rmtree(base, ignore_errors=True)
 
 
+def growth_races(c, runner):
+    """byte identity under concurrent growth of the map file (shared with C14 / C15: lib/conc.growth_step_races)"""
+    from ..conc import growth_step_races
+    base = os.path.join(RUNDIR, 'C04g-%d' % os.getpid())
+    os.makedirs(base, exist_ok=True)
+    try:
+        growth_step_races(c, base, nrep=1 if c.tier == 'quick' else 12)
+    finally:
+        shutil.rmtree(base, ignore_errors=True)
+
+
 def extras(c, runner):
     far_ends(c, runner)
     same_id_races(c, runner)
+    growth_races(c, runner)
 
 
 def run():
